@@ -44,7 +44,10 @@ def register(P):
                      # pods as the real reconcile hands them to the pod control (several built from one decoded template in one sync):
                      # identity, claim volumes and template of every created pod, observed at the create call
                      {"engine": "reconcile", "quick": 20000, "thorough": 200000, "enum_thorough": ["small"],
-                      "proj": lambda c, o: (o.get("idbad"), o.get("tplbad")), "clauses": ["C06."]}],
+                      "proj": lambda c, o: (o.get("idbad"), o.get("tplbad")), "clauses": ["C06."]},
+                     # what the pod writes of a whole sync CARRY (owner reference and identity of created pods, what an identity
+                     # update keeps), judged call by call by the sync engine's reactor
+                     {"engine": "sync", "quick": 5000, "thorough": 60000, "proj": lambda c, o: o.get("wbad"), "clauses": ["C06."]}],
             "rule": PC_RULE,
             "assumptions": [
                 "a claim 'exists' when the PVC informer cache returns it or a create of it succeeded (the controller cannot see a claim deleted out-of-band while the cache still shows it)",
